@@ -1,6 +1,4 @@
 package props
 
 // NotApplicable lists the properties static analysis cannot decide, not even in part (DESIGN.md §5).
-var NotApplicable = [][2]string{
-	{"C20", "Idempotence of the printer depends on line/column arithmetic over arbitrary inputs (layout decisions based on source positions); not a shape-of-code fact."},
-}
+var NotApplicable = [][2]string{}
